@@ -19,7 +19,7 @@ TS_NONCANON = ['X lag(n=0)', 'Y lag(n=01)', 'Z\n']
 TYPES = ['->', '--', '<>', 'oo', 'o>', 'o-']
 VTYPES = ['unspecified', 'continuous', 'binary', 'multiclass', 'ordinal']
 METAS = [{}, {}, {}, {'k': 1}, {'color': 'red', 'w': [1, 2]}, {'a': {'b': [1, {'c': None}]}}, {'time_lag': 5},
-         {'variable_name': 'Q', 'z': True}, {'é': 'ü'}]
+         {'variable_name': 'Q', 'z': True}, {'é': 'ü'}, {'none': None, 'k': 0}, {'z': None, 'f': False, 'e': ''}]
 
 
 def ts_name(var, lag):
